@@ -475,6 +475,11 @@ func (c *Conn) doHandshake() error {
 		return fmt.Errorf("unexpected frame, expected settings, got %s", fr.Type())
 	} else if err == nil {
 		st := fr.Body().(*Settings)
+		if !st.IsAck() && st.Push() {
+			_ = c.c.Close()
+			return NewGoAwayError(ProtocolError, "server set SETTINGS_ENABLE_PUSH to 1")
+		}
+
 		if !st.IsAck() {
 			st.CopyTo(&c.serverS)
 
@@ -1741,6 +1746,14 @@ loop:
 		case FrameSettings:
 			st := fr.Body().(*Settings)
 			if !st.IsAck() { // if it has ack, just ignore
+				// Only a client can enable push, by not disabling it; a
+				// server that sets the parameter to anything but 0 makes a
+				// connection error of it (RFC 7540 8.2).
+				if st.Push() {
+					err = NewGoAwayError(ProtocolError, "server set SETTINGS_ENABLE_PUSH to 1")
+					break
+				}
+
 				c.handleSettings(st)
 			}
 		case FrameWindowUpdate:
